@@ -217,11 +217,38 @@ pub fn decode_cbor(input: &[u8]) -> Result<Value, DecodeError> {
   decode_value(&mut decoder)
 }
 
+/// Pull the next header. The two-byte encoding of a simple value below 32
+/// (`0xf8 0x00..=0x1f`) is not well-formed (RFC 8949 section 3.3) but is
+/// accepted by `ciborium-ll`, so it is rejected here.
+fn pull_header<R: ciborium_io::Read>(decoder: &mut Decoder<R>) -> Result<Header, DecodeError>
+where
+  ciborium_ll::Error<R::Error>: Into<DecodeError>,
+{
+  let start = decoder.offset();
+  let header = decoder.pull().map_err(Into::into)?;
+  if let Header::Simple(s) = header {
+    if s < 32 && decoder.offset() - start > 1 {
+      return Err(DecodeError::Syntax(start));
+    }
+  }
+  Ok(header)
+}
+
 fn decode_value<R: ciborium_io::Read>(decoder: &mut Decoder<R>) -> Result<Value, DecodeError>
 where
   ciborium_ll::Error<R::Error>: Into<DecodeError>,
 {
-  let header = decoder.pull().map_err(Into::into)?;
+  let header = pull_header(decoder)?;
+  decode_value_from_header(decoder, header)
+}
+
+fn decode_value_from_header<R: ciborium_io::Read>(
+  decoder: &mut Decoder<R>,
+  header: Header,
+) -> Result<Value, DecodeError>
+where
+  ciborium_ll::Error<R::Error>: Into<DecodeError>,
+{
   match header {
     Header::Positive(v) => Ok(Value::Integer(Integer::from(v))),
     Header::Negative(v) => {
@@ -364,13 +391,11 @@ where
       // Indefinite-length array
       let mut items = Vec::new();
       loop {
-        // Peek at the next header to check for break
-        let h = decoder.pull().map_err(Into::into)?;
+        let h = pull_header(decoder)?;
         if h == Header::Break {
           break;
         }
-        decoder.push(h);
-        items.push(decode_value(decoder)?);
+        items.push(decode_value_from_header(decoder, h)?);
       }
       Ok(items)
     }
@@ -398,12 +423,11 @@ where
       // Indefinite-length map
       let mut entries = Vec::new();
       loop {
-        let h = decoder.pull().map_err(Into::into)?;
+        let h = pull_header(decoder)?;
         if h == Header::Break {
           break;
         }
-        decoder.push(h);
-        let key = decode_value(decoder)?;
+        let key = decode_value_from_header(decoder, h)?;
         let val = decode_value(decoder)?;
         entries.push((key, val));
       }
